@@ -92,6 +92,21 @@ theorem C03_prune_only_pushed (c : RefCfg) (m : M Prim) (start : Bytes) (v : Vis
     | .leaf _ _ _ => False :=
   prune_only_pushed c m start v g hv h
 
+/-- **The pre-order statement with no hypothesis on the expression.**  For every expression, every
+    option setting (`-xdev`, `-sorted`, depth bounds, follow mode) and every well-formed world
+    (`wfNode`: what the driver's parser admits - the shape every observed tree has), `process_dir`
+    over walkdir's iterator computes the reference traversal of the tree as the options present it
+    (`viewOf`): a directory before its entries, entries in listing order, a pruned directory
+    without exactly its descendants, a directory on another device reported but not entered.
+    `C03_order_pre`'s hypothesis `PruneOk` is discharged by `C03_prune_only_entered` through the
+    visit-relative refinement `processRoot_preN`. -/
+theorem C03_order_pre_wf (c : Config) (m : M Prim) (start : Bytes) (root : Node Attr) (g : GS)
+    (hpre : c.depthFirst = false) (hw : wfNode root = true) :
+    processRoot (refCfg c) (evalEntry m start) (viewOf c root) g =
+      (let r := refRoot (refCfg c) (evalEntry m start) (viewOf c root) ⟨g, 0, 0⟩
+       resOf r.1 r.2) :=
+  order_pre_wf c m start root g hpre hw
+
 /-- Non-vacuity, on a whole run: `find r -xdev ( -name m -prune ) -o -print` where `r/m` is a mount
     point (device 2, the rest on device 1) with an entry `s` inside: `r/m` is pruned (not printed),
     its entry is not visited, and its sibling `r/z` is still visited. -/
@@ -102,6 +117,6 @@ example :
       [.leaf [97] .plain f, .dir [109] false true (d 2) [.leaf [115] .plain f], .leaf [122] .plain f]
     (run .never [([114], some t)]
       [.xdev, .tok .lp, .tok (.prim (.name [109])), .tok (.prim .prune), .tok .rp, .tok .or_, .tok (.prim (.pathOut [] [10]))]).map
-        (·.gs.out) = some [114, 10, 114, 47, 97, 10, 114, 47, 122, 10] := by decide +kernel
+        (·.gs.out) = some [114, 10, 114, 47, 97, 10, 114, 47, 122, 10] ∧ wfNode t = true := by decide +kernel
 
 end FuModel.Find.Run
